@@ -23,10 +23,38 @@ LEVEL_TEXT = ('decides only: the jackknife importer is the algebraic inverse of 
 TECHNIQUE = 'formula extraction + sympy proof with symbolic length; matrix normal form comparison; def-use closure of the RNG seed'
 
 
+def _strip_asarray_of_params(mod, f):
+    """a copy of f in which np.asarray(p) / np.array(p) of a parameter p reads p (the conversion does not change any number)"""
+    import copy as _copy
+    params = {a.arg for a in f.args.args}
+    g = _copy.deepcopy(f)
+
+    class R(ast.NodeTransformer):
+        def visit_Call(self, n):
+            self.generic_visit(n)
+            if isinstance(n.func, ast.Attribute) and n.func.attr in ('asarray', 'array') and isinstance(n.func.value, ast.Name) and n.func.value.id in ('np', 'numpy') and len(n.args) == 1 \
+                    and not n.keywords and isinstance(n.args[0], ast.Name) and n.args[0].id in params:
+                return n.args[0]
+            return n
+    g = R().visit(g)
+    # `p = p` left behind by `p = np.asarray(p)`
+    for blk_owner in ast.walk(g):
+        for fld in ('body', 'orelse'):
+            blk = getattr(blk_owner, fld, None)
+            if isinstance(blk, list):
+                blk[:] = [s_ for s_ in blk if not (isinstance(s_, ast.Assign) and len(s_.targets) == 1 and isinstance(s_.targets[0], ast.Name) and isinstance(s_.value, ast.Name)
+                                                   and s_.targets[0].id == s_.value.id and len(blk) > 1)]
+    ast.fix_missing_locations(g)
+    for n in ast.walk(g):
+        for ch in ast.iter_child_nodes(n):
+            mod.parents[ch] = n
+    return g
+
+
 def d1_jackknife(ctx, obs):
     rule = 'C13-D1'
     ex = obs.func('Obs.export_jackknife')
-    im = obs.func('import_jackknife')
+    im = _strip_asarray_of_params(obs, obs.func('import_jackknife'))
     n = sp.Symbol('n', positive=True, integer=True)
     xi, mean, S = sp.symbols('x_i mean S', real=True)      # S = sum of all data = n * mean
     # exporter: tmp[1:] = (n * mean - full_data) / (n - 1)
@@ -122,7 +150,13 @@ def d1_jackknife(ctx, obs):
         if isinstance(e, ast.Call) and (obs.dotted(e.func) or '') in ('numpy.mean',) and len(e.args) == 1 and unparse(e.args[0]) == '%s[1:]' % jname:
             return SJ / n
         if isinstance(e, ast.BinOp) and isinstance(e.op, ast.MatMult):
-            if unparse(e.left) == '%s[1:]' % jname:
+            left_ = e.left
+            while isinstance(left_, ast.Subscript) and isinstance(left_.value, ast.Call) and (obs.dotted(left_.value.func) or '') in ('numpy.asarray', 'numpy.array') and left_.value.args:
+                inner_ = left_.value.args[0]
+                while isinstance(inner_, ast.Call) and (obs.dotted(inner_.func) or '') in ('numpy.asarray', 'numpy.array') and inner_.args:
+                    inner_ = inner_.args[0]
+                left_ = ast.Subscript(value=inner_, slice=left_.slice, ctx=ast.Load())
+            if unparse(left_) == '%s[1:]' % jname:
                 ca, cb = proj(e.right)
                 return ca * SJ + cb * Ji
             raise Unrecognised('matrix product %s' % unparse(e))
@@ -243,6 +277,31 @@ def d3_seed(ctx, obs):
     ctx.check(rule, key + '-only-when-missing', bool(g) and unparse(g[0][0][0]) == 'random_numbers is None' and g[0][0][1], 'supplied random numbers take precedence', 'generation guard differs')
 
 
+def d1b_length_guards(ctx, obs, rule='C13-D1'):
+    """a chain of five configurations is a valid observable (Obs.__init__ rejects fewer than five): guards on the number of samples in
+    the import functions may not reject what the constructor accepts - evaluated for lengths 5, 6, 500"""
+    n = 0
+    for q, lname in (('import_jackknife', 'length'), ('import_bootstrap', 'length')):
+        f = obs.func(q)
+        for r in [s_ for s_ in statements(f) if isinstance(s_, ast.Raise)]:
+            for t_, pol in guards_of(obs, r, stop=f):
+                names = {y.id for y in ast.walk(t_) if isinstance(y, ast.Name)}
+                if names != {lname} or not isinstance(t_, ast.Compare):
+                    continue
+                n += 1
+                bad = []
+                for L in (5, 6, 500):
+                    try:
+                        v = bool(eval(compile(ast.Expression(body=t_), '<guard>', 'eval'), {'__builtins__': {}, lname: L}))
+                    except Exception:
+                        v = None
+                    if v is None or v == pol:
+                        bad.append(L)
+                ctx.check(rule, 'obs.py:%s#length-guard[%s]' % (q, unparse(t_)), not bad, 'chains of 5 or more configurations are accepted',
+                          'the guard `%s` rejects chains of length %s, which are valid observables (5 is the minimum of the constructor)' % (unparse(t_), bad), obs.loc(r))
+    ctx.info['length_guards_in_import_functions'] = n
+
+
 def d4b_orientation(ctx, obs, rule='C13-D2'):
     """the table of random numbers is (samples, length) by contract; it is never re-oriented or shifted by a heuristic (a square table,
     a table that never draws configuration 0 cannot be told apart from what the heuristic looks for)"""
@@ -319,6 +378,7 @@ def run(ctx):
     from .. import samplerule
     ctx.rule('C13-D4', 'exported data = fluctuation + replica mean of the same chain; arguments are never written (views included)')
     ctx.guarded('C13-D4', 'obs.py@samples', samplerule.check, ctx, 'C13-D4', obs, ('Obs.export_jackknife', 'Obs.export_bootstrap'))
+    ctx.guarded('C13-D1', 'obs.py@length-guards', d1b_length_guards, ctx, obs)
     ctx.guarded('C13-D2', 'obs.py@table-orientation', d4b_orientation, ctx, obs)
     ctx.guarded('C13-D4', 'obs.py@effects', d5_effects, ctx, obs)
     ctx.floor('C13 obligations', len(ctx.obs), 20)
